@@ -9,7 +9,7 @@ git apply "$PATCH" || { echo "patch does not apply"; exit 2; }
 cd /verif
 for P in "$@"; do
   printf '%s: ' "$P"
-  timeout 1800 ./check "$P" --tier "$TIER" 2>/dev/null | grep -E "^(VIOLATION|OK|KNOWN)" | head -3 | tr '\n' ' '
+  timeout 1800 ./check "$P" --tier "$TIER" 2>/dev/null | grep -E "^(VIOLATION|OK|KNOWN)" | sed -E 's/^(KNOWN-FINDING: property=[^ ]+ sig=[^ ]+).*/\1/' | head -5 | tr '\n' ' '
   echo
 done
 git -C /repo checkout -- . 
